@@ -138,6 +138,7 @@ class Interp:
         self.fuel = fuel
         self.steps = 0
         self.fx = []            # (marker id, outputs delivered when it fired)
+        self.trace = []         # per delivered output: (len(fx), inputs pulled, ticks)
         self.delivered = 0
         self.ticks = 0
         self.pulled = 0
@@ -166,6 +167,7 @@ class Interp:
                     return outs, ("end",)
                 outs.append(y)
                 self.delivered = len(outs)
+                self.trace.append((len(self.fx), self.pulled, self.ticks))
             return outs, ("cut",)
         except JqError as e:
             return outs, ("error", e.payload, e.builtin)
